@@ -14,7 +14,7 @@ def relabel_stream(probe, name, src, dst, cases, rule, exhaustive=False, timeout
     def work(ch):
         outs, cr = run_impl([probe], ch, timeout=timeout)
         outs = [o.replace(src + " ", dst + " ", 1) if o.startswith(src + " ") else o for o in outs]
-        return outs[:2], cr, run_driver(outs)
+        return [o for o in outs if not o.endswith(" crash=1")][:2], cr, run_driver(outs)
     with ThreadPoolExecutor(max_workers=NCPU) as ex:
         for outs, cr, d in ex.map(work, chunks(cases, NCPU * 2) if cases else []):
             sr.merge_driver(d); sr.crashes += cr
